@@ -728,7 +728,7 @@ func ruleC09(c *Ctx) {
 			}
 			for i, a := range call.Call.Args {
 				if k, isC := a.(*ssa.Const); isC && k.Value != nil && i < len(cal.Params) {
-					subst["param:"+cal.Params[i].Name()] = k.Value.ExactString()
+					subst["param#"+itoa(i)] = k.Value.ExactString()
 				}
 			}
 			f = cal
